@@ -329,7 +329,11 @@ impl LuaIndexExpr {
                             }
                         }
 
-                        return Some(LuaIndexKey::Expr(LuaExpr::cast(node).unwrap()));
+                        // error recovery can leave a non-expression node (e.g. a comment) here
+                        match LuaExpr::cast(node) {
+                            Some(expr) => return Some(LuaIndexKey::Expr(expr)),
+                            None => continue,
+                        }
                     }
                     _ => {
                         if let Some(token) = child.as_token()
